@@ -35,7 +35,7 @@ def report_notimpl(run, meta):
 
 def collect(run, rng, nworlds, nqueries, mode, thresholds_fn, quality, nsteps=(4, 14), ndocs=(4, 12), depth=2,
             scored_only=True, ops=NOFUZZY, spans=False, docgen=None, qgen=None, plangen=None, qbias=0.0,
-            blocklimits=(None, 1, 2, 3)):
+            blocklimits=(None, 1, 2, 3), nested=False):
     """Returns (traces, meta, listcases)."""
     trs, meta, cases = [], [], []
     for wi in range(nworlds):
@@ -59,6 +59,13 @@ def collect(run, rng, nworlds, nqueries, mode, thresholds_fn, quality, nsteps=(4
                     aq = world.rand_query(rng, rng.randrange(0, depth + 1), scored_only=scored_only, ops=ops)
                     if qgen:
                         aq = qgen(rng)
+                    elif nested and qi % 7 == 6:
+                        aq = world.rand_nested_query(rng)       # parent / child matchers
+                        if rng.random() < 0.5:
+                            other = world.rand_query(rng, 0, scored_only=True)
+                            op = rng.choice(["and", "or", "andnot"])
+                            aq = {"op": "andnot", "a": aq, "b": other} if op == "andnot" else \
+                                {"op": op, "kids": [aq, other] if rng.random() < 0.5 else [other, aq], "b4": 4}
                     if spans and qi % 5 == 4:
                         aq = world.rand_span_query(rng, rng.randrange(1, 3))
                     if mode == "rank" and aq["op"] == "or" and len(aq["kids"]) >= 2 and qi % 3 == 0:
@@ -185,7 +192,7 @@ def check(run):
                 "matchers judged against QuerySem!Denote; non-trivial = accepted trace with >6 events over a list "
                 "of >1 entries")
     trs, meta, cases = collect(run, rng, 12 if quick else 120, 30 if quick else 40, "exact",
-                               lambda rec, m: (0,), quality=False, spans=True)
+                               lambda rec, m: (0,), quality=False, spans=True, nested=True)
     judge_traces(run, "C11", trs, meta, "c11")
     report_notimpl(run, meta)
     from harness.props import c01
